@@ -23,6 +23,10 @@ def jobs(tier):
         J('h_resp_cmdt', L=260, windows=255, limit=7, gap='1/100')
         J('h_orig_bam', L=260, eps_sym=False)
         J('h_resp_bam', L=300, gap='1/20')
+    # messages that fit into one frame
+    for L in (0, 1, 8):
+        J('h_orig_single', L=L)
+        J('h_orig_single', L=L, pdu2=True)
     # paced connection-mode transfer (minimum_tp_rts_cts_dt_interval) against a peer that grants less than remains
     J('h_orig_cmdt', L=29, interval='1/100')
     # a responder may hold the connection open for longer than T3 in total (every hold CTS restarts the wait)
@@ -54,7 +58,7 @@ def jobs(tier):
 
 def meta(tier):
     return {
-        'bounds': ['J1939-21: payload lengths ' + ('{9,13,14,15,21,22,29,36}' if tier == 'quick' else '9..57, 100, 140, 1785') + '; payload bytes, priority, data page, PDU format / group extension symbolic',
+        'bounds': ['J1939-21: single frames of 0, 1, 8 bytes (identifier fields and data); payload lengths ' + ('{9,13,14,15,21,22,29,36}' if tier == 'quick' else '9..57, 100, 140, 1785') + '; payload bytes, priority, data page, PDU format / group extension symbolic',
                    'stack as RTS/CTS originator against the reference responder: every CTS grant symbolic 1..min(RTS limit, remaining) (all compositions of the packet count), 0-3 hold CTS before chosen grants spaced 10..450 ms, reply latency symbolic 2.5..150 ms',
                    'stack as RTS/CTS responder against the reference originator: RTS window limit symbolic 1..255, stack window symbolic 1..255, DT spacing symbolic 2.5..195 ms',
                    'BAM in both roles, spacing of the reference originator symbolic 50..195 ms',
